@@ -215,19 +215,20 @@ CHECKS["C01"] = {
 
 
 CHECKS["C04"] = {
-    "text": "Partial (three writers only). Proof (Verus, unbounded) of a CRASH-POINT INVARIANT on the real text of LogInnerManager::write and "
+    "text": "Partial (four writers only). Proof (Verus, unbounded) of a CRASH-POINT INVARIANT on the real text of LogInnerManager::{write, strip_log_to} and "
             "RaftIndexInnerManager::{write_index, write_last_applied_log}: the extractor inserts a ghost assertion after EVERY statement that holds a file "
             "mutation (write_all / set_len; the places come from the syn call spans of the current text, transformation T19), so the invariant is checked at "
             "every instant between two file mutations, under the property's crash model (each write call atomic, program order). Log file: the disk image is at "
             "every such instant the image of a log that a reopen recovers (generalised reopen theorem lemma_reopen over states whose sparse index may lag) and "
             "that log is the log as it was or the log with exactly the new record behind it — never a partial or foreign entry, never an index entry that "
-            "points behind the data; lemma_crash_append_meaning states what that means for the reopen computation (record count old or old+1, old records "
+            "points behind the data; during a truncation (popped index bytes zeroed, then the data suffix) it is a prefix of the old log at least as long as the "
+            "cut asks for, the records below the cut byte for byte (for removals within the 0xffff records the reopen scan walks); lemma_crash_append_meaning states what that means for the reopen computation (record count old or old+1, old records "
             "byte-identical, header / index area / record stream well formed). Index file: after the only mutation of each writer the file holds the old or the "
             "new (last-applied, term / vote / membership / catalogue) pair — a length prefix never stands before a body it does not belong to. "
             "The proof script at a crash point speaks only of the state at entry and of the handles' contents before / after that mutation, so it is the same "
             "at every point and follows the writes when they move.",
-    "note": "NOT covered (no contract within reach — actor message chains, several files, rename / remove): LogInnerManager::strip_log_to (two zeroing writes; a "
-            "removal of more than 65 535 records would need a weaker invariant) and the creation branch of LogInnerManager::init (header write, then set_len: the "
+    "note": "NOT covered (no contract within reach — actor message chains, several files, rename / remove): a truncation that removes more than 65 535 records behind "
+            "the surviving index entry (the crash-point assertion is guarded by that bound) and the creation branch of LogInnerManager::init (header write, then set_len: the "
             "256-byte intermediate file does reopen as an empty log, by inspection only); RaftLogManager roll-over / catalogue-before-file ordering, snapshot "
             "pointer insertion, split-off; RaftSnapshotManager::complete_snapshot (remove old files, then save catalogue); install_snapshot; the db_lock; the "
             "last-applied index never pointing past snapshot + log (spans three actors). No bounded stand-in exists for these: a violation there is NOT detected by "
